@@ -78,7 +78,7 @@ class Fake:
 
     def value_len(self, fd):
         m = self.maps[fd]
-        if self.types[fd] == 6:
+        if self.types[fd] in (5, 6, 10):        # the per-CPU map types
             return (m.value_size + 7) // 8 * 8 * self.ncpu
         return m.value_size
 
@@ -90,8 +90,10 @@ class Fake:
                 m = interp.ArrayModel(fd, ks, vs, mx)
             elif mtype == 6:
                 m = interp.ArrayModel(fd, ks, vs, mx, ncpu=self.ncpu)
-            elif mtype in (1, 9):
-                m = interp.HashModel(fd, ks, vs, mx, lru=mtype == 9)
+            elif mtype in (1, 9, 5, 10):
+                # 5 / 10: per-CPU (LRU) hash - user space transfers one value
+                # per possible CPU
+                m = interp.HashModel(fd, ks, vs, mx, lru=mtype in (9, 10))
             elif mtype == 3:
                 m = interp.ProgArrayModel(fd, ks, vs, mx)
             else:
@@ -109,6 +111,7 @@ class Fake:
             val = self._get(m, key)
             if val is None:
                 raise OSError(2, "No such file or directory")
+            val = bytes(val).ljust(self.value_len(fd), b"\0")
             self.write(vptr, val, f"lookup value fd={fd}")
             if cmd == 21:
                 self._delete(m, key)
